@@ -313,6 +313,10 @@ def _variants():
     o["U.homogeneous_transform:ranks"] = lambda c: U.homogeneous_transform(c.pick([lambda: c.sub(c.mat(), 0), lambda: c.sub(c.mat(), 0, slice(None), -1), lambda: c.sub(c.mat(), 0, slice(None), slice(0, c.D)), lambda: c.mat()])(), c.pick([c.pts, lambda: c.sub(c.pts(), 0), lambda: c.sub(c.pts(), 0, 0)])(), vectors=c.pick([False, True]))
     o["U.warp_image:unbatched_flow"] = lambda c: U.warp_image(c.img(), c.coords(), flow=c.sub(c.disp_last(), 0))
     o["L.tversky_index:label_target"] = lambda c: L.tversky_index(c.img1(), c.sub(c.mask(), slice(None), 0), binarize=c.pick([False, True]))
+    o["U.affine_rotation_matrix:square"] = lambda c: U.affine_rotation_matrix(c.sqmat(D=3))
+    # label values beyond num_classes: the scatter raises; the label map must be as it was at the point of the exception
+    o["U.as_one_hot_tensor:range"] = lambda c: U.as_one_hot_tensor(c.labels(), 2, ignore_index=c.pick([1, 0, None]))
+    o["L.label_smoothing:range"] = lambda c: L.label_smoothing(c.labels(), num_classes=2, ignore_index=c.pick([1, 0]), alpha=0.1)
     o["U.as_one_hot_tensor:ignore"] = lambda c: U.as_one_hot_tensor(c.labels(), 3, ignore_index=c.pick([2, 1, 0, None]), dtype=c.pick([None, torch.float32]))
     o["U.normalize_image:modes"] = lambda c: U.normalize_image(c.pick([c.img, c.prob, c.unit])(), mode=c.pick(["unit", "center", "zscore", "z-score"]), **c.pick([dict(), dict(min=-1.0, max=1.0), dict(min=0.0), dict(max=0.5)]))
     o["U.grid_sample:unbatched"] = lambda c: c.pick([U.grid_sample, U.sample_image])(c.img(), c.sub(c.coords(), 0))
